@@ -430,3 +430,78 @@ def ilu_threshold_guard_rule(chk, cid, prog, p, cfgname):
     if n < 2:
         raise AnalysisBroken('%s: %d guarded pivot candidates found, expected 2' % (f.name, n))
     return n
+
+
+def ilu_magnitude_twin_rule(chk, cid, prog, p, cfgname):
+    """ilu_?pivotL measures a pivot candidate three times - in the scan over all rows, for the remembered pivot and for the diagonal - with a
+    `switch (milu)` each: |l + drop_sum| for SMILU_1, |l| (+ drop_sum) for SMILU_2/3, |l| for SILU.  The three switches must agree case by case up
+    to the position they look at (isub / old_pivptr / diag): the threshold test compares a candidate measured one way with a maximum measured
+    another way otherwise, and a candidate that cancels against drop_sum can be chosen as an exactly zero pivot with info = 0.  Compared with
+    the sibling comparer inside the function; the SMILU_2/3 scan case carries its drop_sum outside the switch (added to pivmax after the loop),
+    which is the one listed difference."""
+    from ..run import AnalysisBroken
+    from .r9_sibling import Comparer, Mismatch
+    f = prog.func('ilu_' + p + 'pivotL')
+    if f is None:
+        raise AnalysisBroken('ilu_%spivotL not found' % p)
+    chk.saw(unit=f.unit, func=f.unit + ':' + f.name)
+    sw = [x for x in f.body.walk() if x.k == 'Switch' and 'milu' in canon(x.c[0], ids=False)
+          and any(y.k == 'Assign' and strip(y.c[0]).k == 'Ref' and strip(y.c[0]).a.get('name') == 'rtemp' for y in x.walk())]
+    if len(sw) != 3:
+        raise AnalysisBroken('%s: %d magnitude switches on milu found, expected 3' % (f.name, len(sw)))
+
+    def cases(s):
+        """label text -> the assignment to rtemp that the label reaches"""
+        out = {}
+        pending = []
+        body = s.c[1]
+        for st in (body.c if body.k == 'Block' else [body]):
+            node = st
+            while node.k in ('Case', 'Default'):
+                pending.append(canon(node.c[0], ids=False) if node.k == 'Case' else 'default')
+                node = node.c[-1]
+            for y in node.walk():
+                if y.k == 'Assign' and strip(y.c[0]).k == 'Ref' and strip(y.c[0]).a.get('name') == 'rtemp':
+                    for lab in pending:
+                        out[lab] = y
+                    pending = []
+                    break
+        return out
+    c0 = cases(sw[0])
+    n = 0
+    for k_, other in enumerate(sw[1:], 1):
+        ck = cases(other)
+        for lab in sorted(c0):
+            if lab not in ck:
+                continue
+            n += 1
+            inst = '%s:magnitude-of-%s-agrees-with-the-scan:%s' % (f.name, ('remembered-pivot', 'diagonal')[k_ - 1], lab)
+            a, b = c0[lab], ck[lab]
+            cmp_ = Comparer(f, f, 'sdcz', None)
+            cmp_.ab, cmp_.ba = {}, {}
+            okk, why = True, ''
+            try:
+                cmp_.expr(a.c[1], b.c[1])
+            except Mismatch as m:
+                okk, why = False, m.why
+            if not okk and 'SMILU_2' in lab or (not okk and 'SMILU_3' in lab):
+                # the scan adds drop_sum to pivmax after the loop instead: accept `|l|` against `|l| + drop_sum`
+                rb = strip(b.c[1])
+                if rb.k == 'Binary' and rb.a['op'] == '+':
+                    try:
+                        cmp2 = Comparer(f, f, 'sdcz', None)
+                        cmp2.ab, cmp2.ba = {}, {}
+                        cmp2.expr(a.c[1], rb.c[0])
+                        okk = any(y.k == 'Assign' and y.a['op'] == '+=' and strip(y.c[0]).k == 'Ref' and strip(y.c[0]).a.get('name') == 'pivmax' for y in f.body.walk())
+                    except Mismatch:
+                        pass
+            if okk:
+                chk.ok(cid, inst, sample='`%s` ~ `%s`' % (pretty(a)[:40], pretty(b)[:40]))
+            else:
+                chk.violate(cid, inst, loc(f, a), f.name,
+                            'for %s the scan measures a candidate with `%s` but the %s is measured with `%s` (%s): the threshold test then compares quantities '
+                            'measured differently, and a candidate that cancels against drop_sum can become an exactly zero pivot with info = 0'
+                            % (lab, pretty(a.c[1])[:40], ('remembered pivot', 'diagonal')[k_ - 1], pretty(b.c[1])[:40], why), cfgname=cfgname)
+    if n < 4:
+        raise AnalysisBroken('%s: only %d case pairs compared' % (f.name, n))
+    return n
